@@ -18,7 +18,20 @@ def replay(art):
     e = art['endian']
     exp, spans = ref.encode(art['top'], v, e)
     try:
-        got = T.build(ref, art['top'], v, getattr(mod, art['top'])()).encode(e)
+        cls = getattr(mod, art['top'])
+        if art.get('build') == 'fresh':
+            m = cls()
+            got = exp
+            for e2 in '<><>':
+                g = m.encode(e2)
+                if g != ref.encode(art['top'], v, e2)[0]:
+                    got, e, exp = g, e2, ref.encode(art['top'], v, e2)[0]
+                    break
+        elif art.get('build') == 'sparse':
+            from .. import apimodel as A
+            got = A.build_sparse(ref, A.ApiModel(ref), art['top'], v, cls()).encode(e)
+        else:
+            got = T.build(ref, art['top'], v, cls()).encode(e)
     except Exception as ex:     # noqa
         return 'encode raised %s: %s' % (type(ex).__name__, ex)
     if got != exp:
